@@ -51,9 +51,25 @@ CLAIMS = {
          "(equal closures give equal orbits), and SYMMETRY a(V,W)*s(W,V) = a(W,V)*s(V,W) by double counting with the transvection moves; fourpoint. "
          "Final float division excluded (compared at 1e-12). Source-level model refined to the core BFS in Lean and tied to the code by correspondence.",
          "Lean BFS/orbit proofs (soundness, completeness, distances, symmetry) + differential correspondence + independent orbit oracle"),
+ "C12": ("proof", "6.C12", "Lean proof for ALL n and ALL term lists (repeats, zero coefficients, cancellations, the empty list) over exact Gaussian rationals, with den(a) = sum c*M(P): "
+         "den(a@b) = den a * den b, den(a+b), den(c*a), den(a.h) = conjugate transpose, trace = matrix trace (tr M(P) = 2^n [P=I]), den(simplify a) = den a, "
+         "a == b iff den a = den b and is_zero iff den a = 0 (linear independence of the Pauli matrices by trace orthogonality), get_matrix entrywise, kron/quadratic; "
+         "printing only partly (parse-back checked by the oracle). Model tied to the code by exact comparison on dyadic coefficients (every float operation exact), "
+         "dense numpy oracle on every clause; generic floats against numpy at 1e-9. Floating-point rounding and tolerance semantics are outside the theorems. "
+         "Known finding: get_matrix of the empty combination raises IndexError (no qubit count).",
+         "Lean proofs of every algebraic clause (all n, all term lists) + exact dyadic differential correspondence + dense numpy oracle"),
+ "C13": ("proof", "6.C13", "Lean proof for ALL n>=1 and ALL 2^n x 2^n matrices / diagonals over Q(i) (exact arithmetic), about the Lean model of "
+         "matrix_decomposition / matrix_decomposition_diagonal (in-place slice loops as written: while h<len, for i in range(0,len,4h), h*=4; _pauli_ord/_mat_to_vec), "
+         "get_index / get_diagonal_index / get_weight_in_matrix and get_pauli_weights / average_pauli_weight: the number a string P looks up is tr(M(P)A)/2^n; "
+         "sum_P w[P] M(P) = A; the diagonal variant returns the same numbers as the general one on np.diag(d); the weight table at P.get_index() is the "
+         "letter count of P (same index function); influence = sum_P |P| |c_P|^2 exactly; shapes other than (2^n,2^n)/(2^n,), n>=1, give ValueError. "
+         "Model tied to the code by exact comparison on dyadic Gaussian matrices n<=4/5 (all binary64 arithmetic exact), every string as lookup key n<=3, "
+         "malformed shapes/lengths; full-precision float matrices n<=6, entropy and influence against an independent numpy oracle at 1e-9. "
+         "Not covered: floating-point rounding, np.abs, log2 and the 1e-12 cut-off of the entropy.",
+         "Lean proof (loop invariant -> recursive per-qubit transform -> trace formula -> Pauli completeness, all n) + exact differential correspondence on dyadic inputs + numpy oracle"),
 }
 PENDING = {}
-ACTIVE = ["C04", "C18", "C17", "C14", "C01", "C02", "C08", "C09", "C10", "C15"]
+ACTIVE = ["C04", "C18", "C17", "C14", "C01", "C02", "C08", "C09", "C10", "C15", "C12", "C13"]
 def main():
     props = [json.loads(l) for l in open(os.path.join(V, "properties.jsonl"))]
     checks, na = [], []
